@@ -69,7 +69,8 @@ def run(rep):
                          "named classes (closing bracket / terminator deleted, non-reference target, unary base of **); comment / string / "
                          "regex texts are chosen by the specification over an alphabet and judged on the rendered text by LexerFSM; numeric literals "
                          "are the product of their lexical parts (mantissa shape x exponent letter x sign x digits x value; radix prefix x "
-                         "digit case x zeros), alone and written into every position (nctx)")
+                         "digit case x zeros), alone and written into every position (nctx); regex / string literals as operands in every bracketed "
+                         "position, base without and variant with the optional parentheses (lpos); member chains mixing .name and [expr] as callee of new / call")
     rep.assumptions += ["JsGrammar.tla transcribes the ECMA-262 expression grammar for the supported operators (strict mode)",
                         "calls and array literals as assignment targets, missing statement separators: not judged"]
 
